@@ -21,11 +21,11 @@ RULE = ('exhaustively all strings over {a, space, *, _, .} up to length 7 (quick
         'letters). Distinct by string; non-trivial when the string has at least two delimiter runs')
 TRUSTED = ['harness/spec_emph.py is the reading of CommonMark 0.30 section 6.2 used as oracle; it is itself checked against '
            'the emphasis examples of the vendored corpus on every run']
-ASSUMPTIONS = ['texts contain no other inline syntax (no backticks, brackets, angle brackets, ampersands, backslashes)']
+ASSUMPTIONS = ['texts contain no other inline syntax (no backticks, closing brackets, angle brackets, ampersands); backslash escapes, "!" and "[" are included']
 PARTIAL = ['interim level: exhaustive small-scope + random differential against the specification oracle. The Lean model of '
            'process_emphasis, the flanking theorem and the refinement to the declarative procedure are the planned upgrade']
 
-WIDE = list('ab1 .,;:!?()-"\'') + ['*', '_', '*', '_', '\xa0', ' ', ' ', '«', '»', '“', '”', '…', '—', 'é', 'Ω', '中', '¡', '·', '　']
+WIDE = list('ab1 .,;:!?()-"\'') + ['\\', '[', '!', '*', '_', '*', '_', '\xa0', ' ', ' ', '«', '»', '“', '”', '…', '—', 'é', 'Ω', '中', '¡', '·', '　']
 
 
 def impl_emph(text):
@@ -104,6 +104,10 @@ def strings(ctx):
         for tup in itertools.product('a *_.', repeat=k):
             if tup[0] != ' ' and tup[-1] != ' ':
                 yield ''.join(tup)
+    # backslash escapes, '!' and '[' next to delimiter runs (no ']' so no link can form: brackets stay literal)
+    for k in range(1, (6 if not ctx.thorough else 7) + 1):
+        for tup in itertools.product('a*_\\![', repeat=k):
+            yield ''.join(tup)
     for alpha in ('a*', 'a_'):
         for k in range(n5 + 1, n2 + 1):
             for tup in itertools.product(alpha, repeat=k):
